@@ -34,25 +34,6 @@ Qed.
 Definition is_rel_ev (e : ev) : bool := match e with ERaw _ k _ _ => is_rel_rop k | _ => false end.
 Definition ev_lock (e : ev) : lock := match e with ERaw _ _ l _ => l | _ => 0 end.
 
-(* every release event carries RUnit, RBad or RFault *)
-Definition rel_res_ok (e : ev) : Prop :=
-  match e with ERaw _ k _ r => is_rel_rop k = true -> r = RUnit \/ r = RBad \/ r = RFault | _ => True end.
-
-Lemma run_rel_res pw t p w out w' :
-  run pw t p w = (out, w') -> exists evs, w_trace w' = evs ++ w_trace w /\ Forall rel_res_ok evs.
-Proof.
-  intros R.
-  destruct (run_ops_inv pw t (fun _ => True) (fun _ => True) rel_res_ok) with (p := p) (w := w) (out := out) (w' := w') as [_ H]; auto.
-  - intros o w1 _ _. destruct o; simpl; try (split; [exact I|exists []; split; [reflexivity|constructor]]);
-      try (split; [exact I|eexists [_]; split; [reflexivity|repeat constructor]]).
-    destruct (faulty w1 k l); [split; [exact I|eexists [_]; split; [reflexivity|constructor; [|constructor]; simpl; intros Hk; auto]]|].
-    unfold raw_apply.
-    destruct k; simpl;
-      repeat match goal with |- context [if ?b then _ else _] => destruct b end;
-      (split; [exact I|eexists [_]; split; [reflexivity|constructor; [|constructor]; simpl; intros Hk; try discriminate Hk; auto]]).
-  - clear. induction p; constructor; auto.
-Qed.
-
 (* a program made of releases (and non-raw operations) acquires nothing *)
 Definition relonly (o : op) : Prop := match o with ORaw k _ => is_acq_rop k = false | _ => True end.
 Definition no_acq_ev (e : ev) : Prop := match e with ERaw _ k _ _ => is_acq_rop k = false | _ => True end.
